@@ -639,7 +639,7 @@ func (ex *Exec) builtin(fr *Frame, st *State, bi *ssa.Builtin, cc *ssa.CallCommo
 		case *types.Map:
 			ks, _ := ex.mapSorts(t)
 			m := ex.term(args[0], SInt, "map")
-			dk := MapDomKey(ks)
+			dk := MapDomKey(ks, t)
 			dom := ex.heapGet(st, dk, SArray(SInt, SArray(ks, SBool)))
 			ex.heapSet(st, dk, ts.Store(dom, m, ts.ConstArray(SArray(ks, SBool), ts.False())))
 			card := ex.heapGet(st, MapCardKey, SArray(SInt, SInt))
